@@ -22,6 +22,7 @@ import (
 	"sigs.k8s.io/karpenter/pkg/controllers/disruption"
 	"sigs.k8s.io/karpenter/pkg/test/v1alpha1"
 
+	"verif/gen"
 	"verif/props/common"
 	"verif/world"
 )
@@ -107,7 +108,7 @@ func strMap(m map[string]string) string {
 }
 
 type stateCounts struct {
-	nodes, nominated, marked, withPorts, withVolumes, bookkeeping int
+	nodes, nominated, marked, withPorts, withVolumes, bookkeeping, dsCached, antiAffinity int
 }
 
 //nolint:gocyclo
@@ -169,10 +170,15 @@ func stateDigest(e *world.Env, pools []string, daemons []*appsv1.DaemonSet, d di
 	d["state.hasSynced|"] = fmt.Sprint(c.HasSynced())
 	d["config.options|"] = walk(e.Opts)
 	for _, ds := range daemons {
-		d["state.daemonSetPods|"+ds.Name] = walk(c.GetDaemonSetPod(ds))
+		dp := c.GetDaemonSetPod(ds)
+		d["state.daemonSetPods|"+ds.Name] = walk(dp)
+		if dp != nil {
+			sc.dsCached++
+		}
 	}
 	for k, v := range syncMapDump(c, "antiAffinityPods") {
 		d["state.antiAffinityPods|"+k] = v
+		sc.antiAffinity++
 	}
 	// pod bookkeeping (only a provisioning pass may change these)
 	for _, m := range []string{"podAcks", "podsSchedulingAttempted", "podsSchedulableTimes", "podHealthyNodePoolScheduledTime", "podToNodeClaim"} {
@@ -255,6 +261,51 @@ func providerDigest(e *world.Env, pools []*v1.NodePool, d digest) (types, offeri
 	}
 	d["provider.instances|"] = strings.Join(live, " ")
 	return
+}
+
+// pristineCheck compares the provider's catalogs with instance types rebuilt from the generator's serialisable
+// specs (value comparison, order included). The provider never edits its catalog by itself, so every difference
+// was made by Karpenter code that ran since generation (world building = real provisioning passes, launches,
+// lifecycle). Returns component -> description.
+func pristineCheck(w *common.DWorld) map[string]string {
+	e := w.Env
+	out := map[string]string{}
+	for cat, specs := range w.Specs {
+		its := e.Provider.Default
+		if cat != "" {
+			its = e.Provider.Catalog[cat]
+		}
+		var want, got []string
+		for _, sp := range specs {
+			want = append(want, sp.Name)
+		}
+		for _, it := range its {
+			got = append(got, it.Name)
+		}
+		if strings.Join(want, " ") != strings.Join(got, " ") {
+			out["provider.instance-type-slice-order"] = fmt.Sprintf("catalog %q: generated order %v, provider now holds %v", cat, want, got)
+			continue
+		}
+		for i, sp := range specs {
+			fresh := gen.BuildType(sp)
+			var wo, gotO []string
+			for _, o := range fresh.Offerings {
+				wo = append(wo, offeringID(o))
+			}
+			for _, o := range its[i].Offerings {
+				gotO = append(gotO, offeringID(o))
+			}
+			if strings.Join(wo, " ") != strings.Join(gotO, " ") {
+				out["provider.offerings-slice-order"] = fmt.Sprintf("instance type %s: generated offering order %v, now %v", sp.Name, wo, gotO)
+				continue
+			}
+			if a, b := walk(fresh, "InstanceType.once", "InstanceType.allocatableOfferings"), walk(its[i], "InstanceType.once", "InstanceType.allocatableOfferings"); a != b {
+				x, y := firstDiff(a, b)
+				out["provider.instance-type-or-offering-fields"] = fmt.Sprintf("instance type %s: generated …%s, now …%s", sp.Name, x, y)
+			}
+		}
+	}
+	return out
 }
 
 // ---- the caller-owned inputs (diagnostic only) ----
